@@ -19,3 +19,13 @@ func dbg(format string, a ...any) {
 		fmt.Fprintf(os.Stderr, format+"\n", a...)
 	}
 }
+
+var traceDump = os.Getenv("CS_TRACE") != ""
+
+// tr adds one line to the run's trace (the determinism witness).
+func (w *world) tr(format string, a ...any) {
+	w.res.Trace.Add(format, a...)
+	if traceDump {
+		fmt.Fprintf(os.Stderr, "T "+format+"\n", a...)
+	}
+}
